@@ -65,6 +65,9 @@ type outcome struct {
 	lastID   int64
 	failAt   int // > 0: reading row number failAt of the result fails with failErr
 	failErr  error
+	// sets: for a text of several statements, the result sets of its queries in order (the outcome itself is the
+	// last statement's)
+	sets []*outcome
 }
 
 func (e *Engine) newTxn() *txn {
@@ -365,11 +368,18 @@ func (s *session) run(ctx context.Context, sql string, args []interface{}, pre [
 		return nil, err
 	}
 	var out *outcome
+	var sets []*outcome
 	for _, p := range pieces {
 		var err error
 		if out, err = s.execPiece(ctx, p, args[p.lo:p.hi]); err != nil {
 			return nil, err
 		}
+		if out != nil && out.cols != nil {
+			sets = append(sets, out)
+		}
+	}
+	if len(pieces) > 1 && len(sets) > 1 && out != nil {
+		out.sets = sets
 	}
 	return out, nil
 }
